@@ -57,6 +57,7 @@ ASSUMPTIONS = [
     "requires that nothing is shown in addition and that the exception names the template and its line",
     "traceback.extract_tb, linecache and the warnings filters themselves are outside the model",
 ]
+REGEN = ["TbCfg"]     # RichTraceback._init: does the per-file cache keep the template source?
 TRUSTED_EXTRA = [
     "C12: indentation written by PythonPrinter is not modelled (no newline in it); the text of generated lines "
     "is opaque to the model; the classification 'cannot raise' of generated boiler-plate lines is a fixed list "
@@ -1126,6 +1127,14 @@ def witness_sets():
     W.append(("exotic-include", hand_set(
         {"main": "m\x0c\u2028\n<%include file=\"/inc.html\"/>\nlast", "inc": "i\x85\r\x0b\n\n${{S}}"}, "expr", "1", "1/0",
         [("main", 2, "include"), ("inc", 3, "slot:expr")])))
+    W.append(("alternating-inherit", hand_set(
+        {"main": "<%inherit file=\"/base.html\"/>\nm2\n<%block name=\"foo\">\n    ${parent.foo()}\n</%block>\nm6",
+         "base": "b1\nb2\n<%block name=\"foo\">\n  b4\n    ${{S}}\n</%block>\nb7\n${self.body()}"},
+        "expr", "1", "1/0", [("base", 3, "block-site"), ("main", 4, "call-expr"), ("base", 5, "slot:expr")])))
+    W.append(("alternating-call-with-content", hand_set(
+        {"main": "<%namespace name=\"q\" file=\"/ns.html\"/>\nm2\n<%call expr=\"q.wrap()\">\n  body\n  ${{S}}\n</%call>\nm7",
+         "ns": "n1\n<%def name=\"wrap()\">\n  n3\n  ${caller.body()}\n</%def>\nn6\nn7\nn8"},
+        "expr", "1", "1/0", [("main", 3, "call-tag"), ("ns", 4, "caller-body-call"), ("main", 5, "slot:expr")])))
     W.append(("code", hand_set({"main": "a\n<%\n  x = 1\n  {S}\n%>\nc"}, "code", "pass", "raise ValueError('m')",
                                [("main", 4, "slot:code")])))
     W.append(("control-for-loop", hand_set({"main": "a\nb\n% for i in ({S},):\n${str(loop.index)}\n% endfor\nc"}, "control-for-loop",
@@ -1340,7 +1349,13 @@ def check_traceback(ts, slot, path, env, views=("records", "text", "html", "form
                 problems.append(("plain-frame-changed", {"raw": list(fr), "record": list(r[:4])}))
         else:
             got_t.append((r[4], r[5], r[6], r[1], r[3]))
-            if r[5] and r[7] is not None and 1 <= r[5] <= len(r[7].split("\n")) and r[6] != r[7].split("\n")[r[5] - 1]:
+            tsrc = {names[tid]: texts[tid] for tid in texts}.get(r[4])
+            if tsrc is not None and r[7] != tsrc:
+                other = [tid for tid in texts if texts[tid] == r[7]]
+                problems.append(("record-source-of-another-template", {"frame_of": r[4], "line": r[5],
+                                                                       "source_is_that_of": other or "?"}))
+            if (r[5] and r[7] is not None and (tsrc is None or r[7] == tsrc)
+                    and 1 <= r[5] <= len(r[7].split("\n")) and r[6] != r[7].split("\n")[r[5] - 1]):
                 problems.append(("record-source-text-not-line-of-source", {"line": r[5], "text": r[6],
                                                                            "line_of_source": r[7].split("\n")[r[5] - 1]}))
     if len(recs) != len(raw):
@@ -1361,7 +1376,11 @@ def check_traceback(ts, slot, path, env, views=("records", "text", "html", "form
                                                "got_source": g[2], "generated": g[4][:80], "view": "records"}))
     # .lineno / .source: the innermost template frame
     inner = exp[-1]
-    if inner[1] is not None and (rt.lineno != inner[1] or rt.source != texts[slot.frames[-1].tid]):
+    own_src = texts[slot.frames[-1].tid]
+    if inner[1] is not None and rt.lineno == inner[1] and rt.source != own_src and rt.source in texts.values():
+        problems.append(("richtraceback-source-of-another-template",
+                         {"lineno": rt.lineno, "source_is_that_of": [t for t in texts if texts[t] == rt.source]}))
+    elif inner[1] is not None and (rt.lineno != inner[1] or rt.source != texts[slot.frames[-1].tid]):
         problems.append(("richtraceback-lineno:" + inner[3], {"expected_line": inner[1], "got_line": rt.lineno,
                                                               "source_is_template": rt.source == texts[slot.frames[-1].tid]}))
     # text view: every frame in order
@@ -1974,9 +1993,37 @@ def corr_c(ctx):
             ctx.branch("c:pick:" + ("none" if o == "none" else "template"))
             if not ok:
                 ctx.disagree("corr.richtraceback_pick", {"input": p}, o, [rt.lineno, rt.source[:10]])
+        # (c2b) the template source attached to each record (several templates in one traceback) -----------
+        st2b = ctx.stream("corr.richtraceback_record_source")
+        infos = {}
+        for nm in "ABC":
+            inf = object.__new__(MT.ModuleInfo)
+            inf.module = types.SimpleNamespace(_source_encoding=None)
+            inf.module_filename = None
+            inf.template_filename = nm
+            inf.template_uri = None
+            inf.module_source = fake_module_source([1])
+            inf.template_source = nm.lower()
+            infos[nm] = inf
+            MT.ModuleInfo._modules[nm] = inf
+        seqs = [[rng.choice(["A", "B", "C", "p", "A", "B"]) for _ in range(rng.randint(1, 7))]
+                for _ in range(300 if ctx.quick else 3000)]
+        # the cache variant of the model is the regenerated constant Generated.TbCfg.modsCacheKeepsSource
+        outs2b = drv.ask_many(["printer srcs " + " ".join(q) for q in seqs])
+        for q, o in zip(seqs, outs2b):
+            st2b["cases"] += 1
+            frames = [("plain.py", 5, "g", "x") if x == "p" else (x, 1, "f", "l") for x in q]
+            X.traceback.extract_tb = lambda tb: frames
+            rt = X.RichTraceback(error=ValueError("x"), traceback=object())
+            got = " ".join("n" if r[7] is None else r[7] for r in rt.records)
+            own = " ".join("n" if x == "p" else x.lower() for x in q)
+            ctx.branch("c:record-source:" + ("own" if got == own else "of-another-template"))
+            if got != o:
+                ctx.disagree("corr.richtraceback_record_source", {"input": q}, o, got)
     finally:
         X.traceback.extract_tb = orig_extract
-        MT.ModuleInfo._modules.pop("m", None)
+        for nm in ("m", "A", "B", "C"):
+            MT.ModuleInfo._modules.pop(nm, None)
     # (c3) warnings hooks -----------------------------------------------------------------------------
     st3 = ctx.stream("corr.warning_hooks")
     n3 = 600 if ctx.quick else 6000
@@ -2326,7 +2373,9 @@ def replay(ctx, data):
                     print("     gen line %d owner %s mark %s site %s : %s" % (r[0], r[1], r[2], r[3], (r[4] or "")[:70]))
             except Exception as e:
                 print("  (model view unavailable: %r)" % (e,))
-            return not [p for p in probs if not p[0].startswith("harness:")]
+            want = data.get("site")
+            mine = [p for p in probs if site_key(p) == want] if want else [p for p in probs if not p[0].startswith("harness:")]
+            return not mine
         if case.get("module_file_state"):
             c2 = type(ctx)(ctx.pid, "thorough", data.get("seed", 0))
             oracle_foreign_module(c2, env)
